@@ -10,7 +10,7 @@ alarms=0
 for seed in "$@"; do
   for p in C01 C02 C03 C04 C05 C06 C07 C08 C09 C10 C11 C12 C13 C14 C15 C16 C17 C18 C19 C20; do
     out=$(VERIF_SEED=$seed timeout 3000 ./check $p --tier quick 2>&1 | grep -v conda | tail -6 | cut -c1-500)
-    if echo "$out" | grep -q "^VIOLATION\|CHECK-ERROR\|KNOWN-FINDING"; then echo "ALARM seed=$seed $p"; echo "$out"; alarms=$((alarms+1)); else echo "quiet seed=$seed $p: $(echo "$out" | tail -1 | cut -c1-120)"; fi
+    if echo "$out" | grep -q "^VIOLATION\|CHECK-ERROR"; then echo "ALARM seed=$seed $p"; echo "$out"; alarms=$((alarms+1)); else echo "quiet seed=$seed $p: $(echo "$out" | tail -1 | cut -c1-120)"; fi
   done
 done
 echo "alarms=$alarms"
